@@ -338,7 +338,7 @@ def one_run(check, seed, i, cfg):
             return None
         from . import tracemon
         obs_n[0] += 1
-        return tracemon.make(("profile", "trace", "both")[obs_n[0] % 3], ms["name"] + ".py", ms.setdefault("spans", tracemon.function_spans(ms["src"])),
+        return tracemon.make(("profile", "trace", "both", "decline")[obs_n[0] % 4], ms["name"] + ".py", ms.setdefault("spans", tracemon.function_spans(ms["src"])),
                                    ms.setdefault("f19", sorted(tracemon.funcs_returning_inside_try_finally(ms["src"]))))
     for arg in (0, 1, 2):
         o = mk_observer()
@@ -359,6 +359,10 @@ def one_run(check, seed, i, cfg):
                 if ox.result and "violation" not in res:
                     res["violation"] = {"klass": "trace-events:" + ox.result[0]["what"], "detail": {"mode": ox.mode, "problems": ox.result}, "func": fi, "arg": arg,
                                         "plan": plan, "module": ms["name"], "src": ms["src"], "observer_mode": ox.mode}
+                elif ox.mode == "decline" and dx is not None and "violation" not in res:
+                    # a tracer that declines scopes must not change what the program does (the model ran untraced)
+                    res["violation"] = {"klass": "trace-events:tracing-changes-behaviour", "detail": {"mode": "decline", "diff": dx}, "func": fi, "arg": arg,
+                                        "plan": plan, "module": ms["name"], "src": ms["src"], "observer_mode": "decline"}
                 dx = tbdx = None
             res["steps"] += rmx["nprobes"]
             injected = sum(1 for ev in rmx["log"] if ev and ev[0] == "inject")
